@@ -29,11 +29,17 @@ func New(config Configuration, statsdClient *statsd.Client) (*SSOProxy, error) {
 
 	hostRouter := hostmux.NewRouter()
 	for _, upstreamConfig := range config.UpstreamConfigs.upstreamConfigs {
+		// each upstream talks to the identity provider it is configured for (its own
+		// `provider_slug` option, which already falls back to the deployment default)
+		upstreamConfigs := config.UpstreamConfigs
+		if upstreamConfig.ProviderSlug != "" {
+			upstreamConfigs.DefaultConfig.ProviderSlug = upstreamConfig.ProviderSlug
+		}
 		provider, err := newProvider(
 			config.ClientConfig,
 			config.ProviderConfig,
 			config.SessionConfig,
-			config.UpstreamConfigs,
+			upstreamConfigs,
 			statsdClient,
 		)
 		if err != nil {
